@@ -167,6 +167,7 @@ type world struct {
 	phase   int
 	lastSeq int
 	wasDone map[int]bool
+	states  map[int]string // caller -> state at the last observation
 	kind    string // "d" | "l" | "q"
 	res     *caseResult
 	// independent bookkeeping for the oracle
@@ -210,6 +211,8 @@ func joinInts(ks []int) string {
 func (w *world) observe() (obs string, settle string, newlyDone []*caller) {
 	synctest.Wait()
 	var parts []string
+	states := map[int]string{}
+	defer func() { w.states = states }()
 	type arrival struct{ seq, id int }
 	var arrivals []arrival
 	var aborters []int
@@ -246,6 +249,7 @@ func (w *world) observe() (obs string, settle string, newlyDone []*caller) {
 			}
 		}
 		parts = append(parts, fmt.Sprintf("%d:%s", c.id, st))
+		states[c.id] = st
 	}
 	w.a.mu.Lock()
 	w.lastSeq = w.a.seq
